@@ -147,11 +147,15 @@ class BridgeRun:
     def log(self, **e):
         self.ev.append(e)
 
-    def on_device(self, dev):
+    def on_device2(self, dev):
+        return self.on_device(dev, 2)
+
+    def on_device(self, dev, br: int = 1):
         try:
             g = device_fields(dev)
         except Exception as x:  # noqa: BLE001
             g = {"cls": "unreadable:" + type(x).__name__}
+        g["br"] = br
         if self.burst is not None:
             tag = int(dev.device_id, 16) if isinstance(getattr(dev, "device_id", None), str) and len(dev.device_id) == 6 else -1
             item = self.burst.get(tag)
@@ -194,9 +198,12 @@ class BridgeRun:
         return self.ev
 
     def obs(self, bridge, ports):
-        listening = [p for p in ports if p in self.net.udp and not self.net.udp[p].closing]
-        bindable = [p for p in ports if p not in self.net.udp and p not in self.net.occupied]
-        self.log(ev="Obs", running=bool(bridge.is_running), listening=listening, bindable=bindable)
+        for k, b in enumerate(self.bridges):
+            mine = {id(t) for t in getattr(b, "_transports", {}).values()} if False else None
+            own = self.owned[k]
+            listening = [p for p in ports if p in self.net.udp and not self.net.udp[p].closing and self.net.udp[p] in own]
+            bindable = [p for p in ports if p not in self.net.udp and p not in self.net.occupied and 0 <= p <= 65535]
+            self.log(ev="Obs", br=k + 1, running=bool(b.is_running), listening=listening, bindable=bindable)
 
     async def _main(self):
         from aioswitcher.bridge import SwitcherBridge
@@ -204,11 +211,20 @@ class BridgeRun:
         ports = list(scn["ports"])
         self.log(ev="Types", known=live_types())
         bridge = SwitcherBridge(self.on_device, ports)
-        self.log(ev="New", ports=ports)
-        allports = sorted(set(ports) | set(scn.get("extra_ports", [])))
+        self.bridges = [bridge]
+        self.owned: list[set] = [set()]
+        self.log(ev="New", br=1, ports=ports)
+        if "ports2" in scn:
+            self.bridges.append(SwitcherBridge(self.on_device2, list(scn["ports2"])))
+            self.owned.append(set())
+            self.log(ev="New", br=2, ports=list(scn["ports2"]))
+        allports = sorted(set(ports) | set(scn.get("ports2", [])) | set(scn.get("extra_ports", [])))
         self.obs(bridge, allports)
         for st in scn["steps"]:
             do = st["do"]
+            br = st.get("br", 1)
+            bridge = self.bridges[br - 1]
+            before = set(self.net.udp.values())
             if do in ("start", "enter"):
                 # a start is always preceded by a loop cycle: "start() back to back with stop(), without yielding to the
                 # loop" is outside the statement's alphabet (ports are promised to be free once the loop has cycled)
@@ -219,9 +235,10 @@ class BridgeRun:
                         await bridge.start()
                     else:
                         await bridge.__aenter__()
-                    self.log(ev="Start", how=do, ok=True, exc="")
+                    self.log(ev="Start", br=br, how=do, ok=True, exc="")
                 except Exception as x:  # noqa: BLE001
-                    self.log(ev="Start", how=do, ok=False, exc=type(x).__name__)
+                    self.log(ev="Start", br=br, how=do, ok=False, exc=type(x).__name__)
+                self.owned[br - 1] |= set(self.net.udp.values()) - before      # endpoints this bridge object opened
             elif do in ("stop", "leave", "leave-exc"):
                 try:
                     if do == "stop":
@@ -231,9 +248,9 @@ class BridgeRun:
                     else:
                         e = ValueError("body failed")
                         await bridge.__aexit__(ValueError, e, None)
-                    self.log(ev="Stop", how=do, raised=False)
+                    self.log(ev="Stop", br=br, how=do, raised=False)
                 except Exception as x:  # noqa: BLE001
-                    self.log(ev="Stop", how=do, raised=True, exc=type(x).__name__)
+                    self.log(ev="Stop", br=br, how=do, raised=True, exc=type(x).__name__)
             elif do == "cycle":
                 await vnet.settle(3)
                 self.log(ev="Cycle")
